@@ -278,6 +278,20 @@ Proof. split; cbn; [exact I | intros _ o r E; discriminate]. Qed.
 Lemma collection_except_known m2m evs : no_bad m2m cinit evs = true -> all_same (cobs (crun m2m cinit evs)).
 Proof. intros NB. apply (kinv_run m2m evs cinit kinv_init NB). Qed.
 
+(* with the proposed repair the statement holds without exception *)
+Lemma kinv_step_fixed m2m s e : kinv s -> kinv (cstep_fixed m2m s e).
+Proof.
+  intros KI. unfold cstep_fixed. destruct (bad_event m2m s e) eqn:B; [|now apply kinv_step].
+  destruct KI as [A K]. split; [exact A | cbn; discriminate].
+Qed.
+
+Lemma collection_fixed m2m evs : all_same (cobs (crun_fixed m2m cinit evs)).
+Proof.
+  assert (forall s, kinv s -> kinv (crun_fixed m2m s evs)) as H.
+  { induction evs as [|e r IH]; intros s KI; cbn; [exact KI|]. apply IH. now apply kinv_step_fixed. }
+  apply (H cinit kinv_init).
+Qed.
+
 Lemma no_bad_m2m evs : forall s, no_bad true s evs = true.
 Proof. induction evs as [|e r IH]; intros s; cbn; [reflexivity|]. rewrite IH. destruct e as [| | i [|] |]; reflexivity. Qed.
 
